@@ -52,6 +52,7 @@ extern void cm_native_error(const char *file, int line);
 struct cm_cv_double { double c[3]; };
 struct cm_cv_int_fast32_t { int_fast32_t c[3]; };
 struct cm_cv_uint_fast32_t { uint_fast32_t c[3]; };
+struct cm_cv_uint32_t { uint32_t c[3]; };
 struct cm_cv_int { int c[3]; };
 struct cm_cv_bool { bool c[3]; };
 
